@@ -250,6 +250,34 @@ theorem lex_minus_digit (T : List Token) (l d : Char) (hl : canStartSignedNumber
     rw [hs.buffer]; rfl
   · simp
 
+/-- `-.` followed by a digit after a rune that can precede a signed number: a negative fraction
+without integer part begins (repo fix C12-05) -/
+theorem lex_minus_dot_digit (T : List Token) (l d : Char) (hl : canStartSignedNumberAfter l = true) (hd : isDig d = true) :
+    Lex ⟨.normal, [], T, l⟩ ['-', '.', d] ⟨.normal, ['-', '.', d], T, d⟩ := by
+  apply Lex.of_feed
+  · intro s hs
+    have h1 := step_minus_start s hs.state hs.buffer
+    have htb : twoback (pushRing s '-') = l := by rw [twoback_pushRing s '-' hs.ring, hs.last]
+    let s1 : LexCore := { pushRing s '-' with state := .builtinOperator, preBuiltinRune := twoback (pushRing s '-'), prevrune := '-' }
+    have h2 : step s1 '.' = .ok { pushRing s1 '.' with state := .minusDot } := by
+      have hst : (pushRing s1 '.').state = .builtinOperator := rfl
+      rw [step_def, stepMode_builtin _ _ hst]
+      have hp : (pushRing s1 '.').prevrune = '-' := rfl
+      have hpre : (pushRing s1 '.').preBuiltinRune = l := htb
+      have hnf : (floatRe ['-', '.'] || decimalRe ['-', '.']) = false := by decide
+      simp [stepBuiltin, hp, hpre, hl, hnf]
+    let s2 : LexCore := { pushRing s1 '.' with state := .minusDot }
+    have hdd : ('0' ≤ d && d ≤ '9') = true := hd
+    have h3 : step s2 d = .ok { pushRing s2 d with state := .normal, buffer := (pushRing s2 d).buffer ++ ['-', '.', d] } := by
+      have hst : (pushRing s2 d).state = .minusDot := rfl
+      rw [step_def]
+      simp only [stepMode, hst, stepMinusDot, hdd, ↓reduceIte]
+    refine ⟨{ pushRing s2 d with state := .normal, buffer := (pushRing s2 d).buffer ++ ['-', '.', d] }, ?_, rfl, ?_, hs.tokens⟩
+    · rw [feed_ok_cons, h1]; exact feed_two s1 s2 _ '.' d h2 h3
+    · show s.buffer ++ ['-', '.', d] = ['-', '.', d]
+      rw [hs.buffer]; rfl
+  · simp [lastOf]
+
 theorem canStart_lead : ∀ l ∈ ['\x00', ' ', '(', '['], canStartSignedNumberAfter l = true := by decide
 
 /-- the printed integer is lexed as one pending atom -/
